@@ -226,7 +226,7 @@ def examine_threads(case):
 
 def plan(tier, seed):
     if tier == "quick":
-        return [{"n": 95, "threads": 6} for _ in range(16)]
+        return [{"n": 250, "threads": 10} for _ in range(16)]
     return [{"n": 3000, "threads": 125} for _ in range(16)]
 
 
@@ -320,6 +320,27 @@ def run_shard(spec, shard):
             shard.fail(f["bucket"], case, f)
 
     drive(rng(), spec["threads"], spec["seed"] + 1, tbody)
+
+    def rbody(r):
+        # function-call heavy jobs: every thread evaluates match()/search()/length()/count() filters with
+        # *different* arguments on the shared environment (state kept inside a function object would race)
+        from vlib.ref import abnf
+        words = ["", "a", "ab", "abc", "b", "ba", "abab", "c", "xay", "0", "a1", "\n", "aa", "bb", "cab"]
+        doc = [r.choice(words) for _ in range(r.randrange(12, 30))] + [1, None, ["a"]]
+        pats = r.sample(["a.*", "[ab]+", ".*b", "a|b", "(ab)*", "[^a]*", "a?b?c?", ".", "b.*a", "[a-c]{2}", "\\\\p{L}+", "a"], 4)
+        jobs = []
+        for i, pat in enumerate(pats):
+            q = "$[?%s(@, '%s')]" % (r.choice(["match", "search"]), pat)
+            jobs.append({"q": q, "ast": abnf.parse(q), "doc": 0})
+        q = "$[?length(@) == %d]" % r.randrange(0, 4)
+        jobs.append({"q": q, "ast": abnf.parse(q), "doc": 0})
+        case = {"kind": "threads", "jobs": jobs, "docs": [doc], "reps": 6}
+        shard.case(key=(jobs, doc), nontrivial=True, classes={"thread-round", "thread-round:function-calls"}, sample=None)
+        f = examine(case)
+        if f:
+            shard.fail(f["bucket"], case, f)
+
+    drive(rng(), max(2, spec["threads"] // 2), spec["seed"] + 2, rbody)
 
 
 def minimise(case, failure, tier):
